@@ -33,7 +33,10 @@ RULE = ("1..7 ballots of one of the four types over 2..6 projects, drawn from 1.
         "different insertion histories (shuffled order, constructor vs incremental insertion, overwritten scores, "
         "delete + re-insert, duplicates, distinct-but-equal Project objects, int/mpq/Fraction scores, empty ballots); "
         "multiprofile built by conversion (as_multiprofile / profile=), from frozen ballots, or incrementally by "
-        "append/extend; every case executed in separate interpreters under each PYTHONHASHSEED of the tier, project "
+        "append/extend/second conversion; in 60 % of the cases ballots that were already frozen / inserted are EDITED IN "
+        "PLACE (same Python object, every mutator of the class: add/update/|=/discard/remove/-=, b[p]=s/update/|=/"
+        "setdefault/pop/del/popitem/clear, append) and frozen / extended / converted again, incl. edit-and-revert; "
+        "every case executed in separate interpreters under each PYTHONHASHSEED of the tier, project "
         "names re-drawn per case; non-trivial = some content inserted at least twice through different histories")
 ASSUMPTIONS = [
     "hand-written Gallina model of the ballot classes and MultiProfile tied to the code by differential execution only",
@@ -160,8 +163,93 @@ def gen(rng, i, tier):
             k += n
             if n == 0 and rng.random() < 0.5:
                 break
-    return {"kind": kind, "nproj": nproj, "prefix": prefix, "ballots": ballots, "ops": ops,
+    # every step goes through a randomly chosen mutator of the class (add/update/|=, b[p]=s/update/setdefault, ...)
+    for b in ballots:
+        b["hist"] = [h + [rng.randrange(0, 20)] if rng.random() < 0.6 else h for h in b["hist"]]
+    case = {"kind": kind, "nproj": nproj, "prefix": prefix, "ballots": ballots, "ops": ops,
             "fresh_projects": rng.random() < 0.5, "tier": tier}
+    if rng.random() < 0.6:
+        _add_versions(rng, case)
+    return case
+
+
+def _keys_of(kind, hist):
+    d = {}
+    for h in hist:
+        if h[0] == "+":
+            d[h[1]] = h[2]
+        else:
+            d.pop(h[1], None)
+    return d
+
+
+def _add_versions(rng, case):
+    """freeze -> edit the SAME mutable ballot object -> freeze / extend / convert again.
+    A version is a new entry of case['ballots'] with 'base' (the version it continues) and 'edit_at' (the edits are
+    applied just before ops[edit_at]); ops before edit_at use the base version, later ops the new one."""
+    kind, nproj = case["kind"], case["nproj"]
+    ballots, ops = case["ballots"], case["ops"]
+    for _ in range(rng.choice([1, 1, 2, 3])):
+        live = [j for j in range(len(ballots)) if not any(b.get("base") == j for b in ballots)]
+        i = rng.choice(live)
+        base = ballots[i]
+        lo = base.get("edit_at", 0)
+        t = rng.randrange(lo, len(ops) + 2)
+        d = _keys_of(kind, base["hist"])
+        extra = []
+        mode = rng.random()
+        nsteps = rng.choice([1, 1, 2, 3])
+        for k in range(nsteps):
+            present = list(d)
+            absent = [p for p in range(nproj) if p not in d]
+            r = rng.random()
+            if present and (r < 0.4 or not absent):
+                p_ = rng.choice(present)
+                if kind in ("card", "cum") and rng.random() < 0.5:
+                    sc = rng.choice([x for x in SCORES if x != d[p_]])
+                    extra.append(["+", p_, sc])
+                    d[p_] = sc
+                else:
+                    extra.append(["-", p_])
+                    d.pop(p_)
+            else:
+                p_ = rng.choice(absent)
+                sc = rng.choice(SCORES) if kind in ("card", "cum") else "0/1"
+                extra.append(["+", p_, sc])
+                d[p_] = sc
+        if mode < 0.25:
+            # edit and revert: the content (for rankings: up to order) is the base's again
+            d0 = _keys_of(kind, base["hist"])
+            for p_ in list(d):
+                if p_ not in d0:
+                    extra.append(["-", p_])
+            for p_, sc in d0.items():
+                if d.get(p_) != sc or p_ not in d:
+                    extra.append(["+", p_, sc])
+        extra = [h + [rng.randrange(0, 20)] for h in extra]
+        j = len(ballots)
+        ballots.append({"hist": base["hist"] + extra, "ctor": base["ctor"], "name": base["name"], "meta": base["meta"],
+                        "numrep": rng.choice(["int", "mpq", "frac"]), "base": i, "edit_at": t})
+        # later uses of the object see the new version
+        for k in range(t, len(ops)):
+            op = ops[k]
+            if op[0] == "append":
+                if op[1] == i:
+                    op[1] = j
+            else:
+                op[1] = [j if x == i else x for x in op[1]]
+        # and it is frozen / extended / converted again
+        if t <= len(ops):
+            r = rng.random()
+            if r < 0.8:
+                k = len(ops)          # index of the op about to be appended: which versions exist at that time?
+                others = [x for x in range(len(ballots)) if x != j and x != i
+                          and (ballots[x].get("base") is None or ballots[x]["edit_at"] <= k)
+                          and not any(b.get("base") == x and b["edit_at"] <= k for b in ballots)]
+                sel = [j] + ([rng.choice(others)] if others and rng.random() < 0.4 else [])
+                rng.shuffle(sel)
+                kindop = rng.choice(["append", "extend", "extend_frozen", "extend_profile", "extend_conv"])
+                ops.append(["append", j] if kindop == "append" else [kindop, sel])
 
 
 # ------------------------------------------------------------------------------------------------
@@ -294,6 +382,7 @@ def stats(cases, obs):
     d = {"kind": {}, "first_op": {}, "merged_different_histories": 0, "len_lt_num": 0, "has_empty_ballot": 0,
          "has_deletion": 0, "history_len_hist": {}, "max_multiplicity_ge3": 0, "uninserted_ballot_queried": 0,
          "seeds": list(SEEDS["quick"]), "set_iteration_differs_between_seeds": 0,
+         "cases_with_edit_after_freeze": 0, "edited_versions": 0, "edit_then_refreeze_same_content": 0,
          "set_iteration_differs_between_equal_ballots": 0}
     for c, o in zip(cases, obs):
         if not isinstance(o, dict) or "per_seed" not in o:
@@ -307,6 +396,11 @@ def stats(cases, obs):
         d["max_multiplicity_ge3"] += max(s0["mult"] + [0]) >= 3
         d["has_empty_ballot"] += any(not it for it in s0["iter"])
         d["has_deletion"] += any(h[0] == "-" for b in c["ballots"] for h in b["hist"])
+        vs = [b for b in c["ballots"] if b.get("base") is not None]
+        d["cases_with_edit_after_freeze"] += bool(vs)
+        d["edited_versions"] += len(vs)
+        d["edit_then_refreeze_same_content"] += any(
+            _content(c["kind"], b["hist"]) == _content(c["kind"], c["ballots"][b["base"]]["hist"]) for b in vs)
         n = len(_inserted(c))
         d["history_len_hist"][str(n)] = d["history_len_hist"].get(str(n), 0) + 1
         d["uninserted_ballot_queried"] += len(set(_inserted(c))) < len(c["ballots"])
@@ -323,6 +417,9 @@ def stats(cases, obs):
 
 
 def shrink(case):
+    if any(b.get("base") is not None for b in case["ballots"]):
+        yield from _shrink_versions(case)
+        return
     nb = len(case["ballots"])
     # fewer ops / shorter ops
     for j in range(len(case["ops"])):
@@ -357,4 +454,42 @@ def shrink(case):
             b2["hist"] = b["hist"][:t] + b["hist"][t + 1:]
             b2["ctor"] = 0
             c["ballots"] = case["ballots"][:j] + [b2] + case["ballots"][j + 1:]
+            yield c
+
+
+def _shrink_versions(case):
+    """cases with edited versions: drop whole ops, drop unreferenced base-free ballots, drop single extra edit steps"""
+    import copy as _copy
+    ops, ballots = case["ops"], case["ballots"]
+    for j in range(len(ops) - 1, -1, -1):
+        c = _copy.deepcopy(case)
+        del c["ops"][j]
+        for b in c["ballots"]:
+            if b.get("base") is not None and b["edit_at"] > j:
+                b["edit_at"] -= 1
+        yield c
+    used = set()
+    for op in ops:
+        used.update([op[1]] if op[0] == "append" else op[1])
+    for j in range(len(ballots) - 1, -1, -1):
+        if j in used or any(b.get("base") == j for b in ballots):
+            continue
+        c = _copy.deepcopy(case)
+        del c["ballots"][j]
+        for b in c["ballots"]:
+            if b.get("base") is not None and b["base"] > j:
+                b["base"] -= 1
+        for op in c["ops"]:
+            if op[0] == "append":
+                op[1] -= op[1] > j
+            else:
+                op[1] = [x - (x > j) for x in op[1]]
+        yield c
+    for j, b in enumerate(ballots):
+        if b.get("base") is None or any(x.get("base") == j for x in ballots):
+            continue
+        n0 = len(ballots[b["base"]]["hist"])
+        for t in range(n0, len(b["hist"])):
+            c = _copy.deepcopy(case)
+            del c["ballots"][j]["hist"][t]
             yield c
